@@ -314,8 +314,15 @@ def families(hole_size):
     for h in small2:
         out.append(("shadow", ("let", ("one",), ("let", ("nil",), ("call0", ("fn0", ("let", ("vec", ("var", 0), ("var", 1)), h)))))))
         out.append(("shadow-fn", ("call1", ("fn1", ("call1", ("fn1", h), ("nil",))), ("one",))))
-    # try / catch / finally combinations around throwing and non-throwing bodies
     closed = [t for k in range(1, hole_size + 1) for t in progs.terms(k, 0, None)]
+    # a def executed in a function nested in a function that def'ed the same name first, then a read of the name: from the
+    # enclosing function, and at top level (the value a name denotes is the one last given to it, wherever the def ran)
+    G = ("gref",)
+    for h in closed:
+        inner = ("call0", ("fn0", ("def", h)))
+        out.append(("nested-def-read-in-fn", ("do", ("def", ("nil",)), ("call0", ("fn0", ("do", ("def", ("one",)), ("do", inner, G)))))))
+        out.append(("nested-def-read-after", ("do", ("call0", ("fn0", ("do", ("def", ("one",)), inner))), G)))
+    # try / catch / finally combinations around throwing and non-throwing bodies
     for h in closed:
         out.append(("try-finally-catch", ("try", ("finally", h, ("one",)), ("vec", ("var", 0), ("nil",)))))
         out.append(("catch-in-finally", ("finally", ("try", h, ("throw",)), ("nil",))))
